@@ -11,7 +11,7 @@ INV_CKPT = ["RestoreOK", "FilesSafe", "LiveTablesExist", "SeqOK"]
 
 def consts(**kw):
     # conc 0 of the replayer uses 2-byte keys and values: a put accounts 17+2+2 bytes, a delete 17+2
-    c = dict(Keys={1, 2, 3}, Vals={1, 2}, Prefixes="@{{1, 2}, {1, 2, 3}}", MemCap=45, PutSz=21, DelSz=19, L0Trigger=2,
+    c = dict(Keys={1, 2, 3}, Vals={1, 2}, Prefixes="@{{1, 2}, {1, 2, 3}}", MemCap=45, PutSz=21, DelSz=19, WalCap=0, L0Trigger=2,
              MaxOps=5, MaxReads=1, MaxCkpt=0, MaxReopen=0, MaxRetain=0, MaxGc=0, MaxFail=0, MaxLen=1000)
     for d in DEVS:
         c[d] = False
@@ -24,7 +24,7 @@ def jsonable(c):
 
 
 def harness_cfg(c, conc=0, **kw):
-    cfg = dict(MemCap=c["MemCap"], L0Trigger=c["L0Trigger"], NKeys=len(c["Keys"]), Conc=conc)
+    cfg = dict(MemCap=c["MemCap"], WalCap=c.get("WalCap", 0), L0Trigger=c["L0Trigger"], NKeys=len(c["Keys"]), Conc=conc)
     cfg.update(kw)
     return cfg
 
